@@ -198,6 +198,7 @@ class FakeProgram:
         self.batches = list(script.get("batches", ()))
         self.exit_code = script.get("exit_code", 0)
         self.crash_after = script.get("crash_after")
+        self.crash_code = script.get("crash_code", 1)      # > 0: the program reports an error; < 0: it was killed by a signal
         self.lag = script.get("lag", 0)             # second output file lags the first by this many half-frames
         self.exit_delay = script.get("exit_delay", 0)   # looks of the engine between the last write and the exit
         self.rc = None
@@ -254,7 +255,7 @@ class FakeProgram:
                 self.exit_delay -= 1
                 return
             self.finish()
-            self.rc = 1 if (self.crash_after is not None and self.crash_after < len(self.frames)) else self.exit_code
+            self.rc = self.crash_code if (self.crash_after is not None and self.crash_after < len(self.frames)) else self.exit_code
 
     def finish(self):
         pass
